@@ -169,6 +169,16 @@ def gen_bases(ctx, n_bases):
         S = sym_graph(n, [(i, i + 1) for i in range(n - 1)])
         keys = [Fraction(i + 1, 64) for i in range(n)]; keys[n - 2] = Fraction(60, 64); keys[n - 1] = Fraction(50, 64)
         out.append(Base("b_end%d" % n, S, make_A(rng, S, keys, "ones"), keys, "path_last_root"))
+    # long chains with keys monotone along the chain: one vertex is decided per sweep and end, so the election needs about n/3
+    # sweeps (far more than log n); and a strip three vertices wide
+    for n, inc in ((150, True), (300, False)) if ctx.quick() else ((150, True), (300, False), (300, True), (420, False)):
+        S = sym_graph(n, [(i, i + 1) for i in range(n - 1)])
+        keys = [Fraction((i + 1) if inc else (n - i), 1024) for i in range(n)]
+        out.append(Base("b_chain%d%s" % (n, "i" if inc else "d"), S, make_A(rng, S, keys, "ones"), keys, "long_chain_monotone"))
+    m = 60
+    S = sym_graph(3 * m, [(3 * i + j, 3 * (i + 1) + j) for i in range(m - 1) for j in range(3)] + [(3 * i + j, 3 * i + j + 1) for i in range(m) for j in range(2)])
+    keys = [Fraction(3 * m - i, 1024) for i in range(3 * m)]
+    out.append(Base("b_strip", S, make_A(rng, S, keys, "ones"), keys, "long_chain_monotone"))
     while len(out) < n_bases:
         k = len(out); r = rng.random()
         if r < 0.45:
@@ -481,6 +491,22 @@ def run(ctx):
             pcs.append(par_case(b, P, 1, "default", 0, None, len(pcs)))
             pcs.append(par_case(b, P, 1, "explicit", P, rand_partition(rng, b.n, P), len(pcs)))
         run_par_batch(ctx, P, pcs, seqres, env={"PPN": str(ppn)}, tag="ppn%d" % ppn)
+    # the two-step node-aware package (TAPComm with form_S = false) on three and four nodes of two ranks: grid-like inputs
+    for P in (6, 8):
+        pcs = []
+        gb = [b for b in bases if b.kind in ("grid9", "grid5", "random_sparse", "ladder", "long_chain_monotone")]
+        big = []
+        for q in range(ctx.scale(10, 60)):
+            a_, b_ = rng.randint(5, 9), rng.randint(4, 8); S = grid_graph(a_, b_, rng.random() < 0.7)
+            keys = distinct_keys(rng, len(S))
+            big.append(Base("g%d_%d" % (P, q), S, make_A(rng, S, keys, "ones"), keys, "grid_two_step"))
+        sr2 = process_seq(ctx, big, [], tag="g%d" % P) if big else {}
+        sr2.update(seqres)
+        for b in big + gb[:ctx.scale(12, 80)]:
+            if b.n < P: continue
+            pcs.append(par_case(b, P, 2, "default", 0, None, len(pcs)))
+            if rng.random() < 0.5: pcs.append(par_case(b, P, 1, "explicit", P, rand_partition(rng, b.n, P), len(pcs)))
+        run_par_batch(ctx, P, pcs, sr2, env={"PPN": "2"}, tag="twostep")
     # ---- exhaustive small graphs
     for chunk in exhaustive_chunks(ctx):
         sr = process_seq(ctx, chunk, tag="xseq")
